@@ -447,7 +447,11 @@ Section WithV6.
       | _ => None
       end
     else if code =? AS_PATH then
-      if aspath_valid (S len) true d then bin else None
+      (* RFC 7606 s7.2: a segment of zero ASes is malformed *)
+      if aspath_valid (S len) false d then bin else None
+    else if code =? NEXTHOP then
+      (* RFC 4271 s5.1.3: a 4-octet IPv4 address *)
+      if Nat.eqb len 4 then bin else None
     else if code =? ATOMIC_AGGREGATE then
       match d with [] => bin | _ => None end
     else if code =? AGGREGATOR then
@@ -457,11 +461,12 @@ Section WithV6.
       | _ => None
       end
     else if (code =? COMMUNITY) || (code =? CLUSTER_LIST) then
-      if Nat.eqb (Nat.modulo len 4) 0 then bin else None
+      (* RFC 7606 s7.8, s7.10, s7.14, RFC 8092 s5: a non-zero multiple of the element size *)
+      if negb (Nat.eqb len 0) && Nat.eqb (Nat.modulo len 4) 0 then bin else None
     else if code =? EXTENDED_COMMUNITY then
-      if Nat.eqb (Nat.modulo len 8) 0 then bin else None
+      if negb (Nat.eqb len 0) && Nat.eqb (Nat.modulo len 8) 0 then bin else None
     else if code =? LARGE_COMMUNITY then
-      if Nat.eqb (Nat.modulo len 12) 0 then bin else None
+      if negb (Nat.eqb len 0) && Nat.eqb (Nat.modulo len 12) 0 then bin else None
     else if code =? AS4_PATH then
       if Nat.eqb (Nat.modulo len 2) 0 && Nat.leb 6 len && aspath_valid (S len) false d then bin else None
     else if code =? AS4_AGGREGATOR then
@@ -512,7 +517,11 @@ Section WithV6.
     end.
 
   Definition seg_ok (s : Z * list N) : bool :=
-    (1 <=? fst s)%Z && (fst s <=? 4)%Z && Nat.leb (length (snd s)) 255.
+    (1 <=? fst s)%Z && (fst s <=? 4)%Z && Nat.leb (length (snd s)) 255 && Nat.leb 1 (length (snd s)).
+
+  (* a list attribute with no element is refused, as on the wire (RFC 7606) *)
+  Definition nonempty_bin (code : N) (b : list N) : option attr :=
+    match b with [] => None | _ => new_with_bin code b end.
 
   (* attr_from_api as it was before the fix commit (see known_findings.json,
      C17-1..C17-4): kept for the [_refuted] witnesses; it is no longer what the
@@ -609,7 +618,7 @@ Section WithV6.
         | Some a => Ok (new_with_bin AGGREGATOR (be32 asn ++ be32 a))
         | None => Ok None
         end
-    | ACommunities l => Ok (new_with_bin COMMUNITY (flat_map be32 l))
+    | ACommunities l => Ok (nonempty_bin COMMUNITY (flat_map be32 l))
     | AOriginatorId s =>
         match ip4_of_string s with
         | Some a => Ok (new_with_value ORIGINATOR_ID a)
@@ -617,16 +626,16 @@ Section WithV6.
         end
     | AClusterList ids =>
         match parse_ids ids with
-        | Some b => Ok (new_with_bin CLUSTER_LIST b)
+        | Some b => Ok (nonempty_bin CLUSTER_LIST b)
         | None => Ok None
         end
     | AExtCommunities l =>
         match write_extcoms l with
-        | Some b => Ok (new_with_bin EXTENDED_COMMUNITY b)
+        | Some b => Ok (nonempty_bin EXTENDED_COMMUNITY b)
         | None => Ok None
         end
     | ALargeCommunities l =>
-        Ok (new_with_bin LARGE_COMMUNITY
+        Ok (nonempty_bin LARGE_COMMUNITY
               (flat_map (fun t => be32 (fst (fst t)) ++ be32 (snd (fst t)) ++ be32 (snd t)) l))
     | AOther => Ok None
     end.
@@ -676,7 +685,8 @@ Section WithV6.
     | None => 0
     end.
 
-  (* Attribute::as_path_length (usize accumulator after the C02 fix) *)
+  (* Attribute::as_path_length (usize accumulator; since the repair of the helpers it
+     stops at a truncated segment header and ignores unknown segment types) *)
   Fixpoint aspl (fuel : nat) (l : list N) (acc : N) : res N :=
     match l with
     | [] => Ok acc
@@ -685,13 +695,12 @@ Section WithV6.
         | O => Panic P_FUEL
         | S f =>
             match r with
-            | [] => Panic P_READ_EOF
+            | [] => Ok acc
             | n :: r' =>
                 let rest := skipn (4 * N.to_nat n) r' in
                 if t =? 1 then aspl f rest (acc + 1)
                 else if t =? 2 then aspl f rest (acc + n)
-                else if (t =? 3) || (t =? 4) then aspl f rest acc
-                else Panic P_UNREACHABLE
+                else aspl f rest acc
             end
         end
     end.
@@ -773,6 +782,59 @@ Section WithV6.
     else k1 ++ [mkAttr AS_PATH 64 (DBin [])].
 
 End WithV6.
+
+(* ------------------------------------------------------------------ *)
+(* TUNNEL_ENCAP, PREFIX_SID and the BGP-LS attribute: the wrapper of attr_to_api
+   around the typed converters (fix commit "shows ... raw when the typed form loses
+   data").  The typed converters themselves (tunnel_encap_tlv_to_api / _from_api,
+   prefix_sid_to_api / _from_api, ls_tlvs_to_api / _from_api with the packet crate's
+   TLV decoders and encoders) are NOT modelled: they enter as the two Section
+   variables below, of which nothing is assumed; a typed message is represented by
+   an uninterpreted byte string. *)
+Inductive api_nc : Type :=
+| NcTyped (code : N) (t : list N)                 (* TunnelEncap / PrefixSid / Ls message *)
+| NcUnknown (flags code : N) (b : list N).        (* Unknown { flags, type, value } *)
+
+Fixpoint list_eqb (a b : list N) : bool :=
+  match a, b with
+  | [], [] => true
+  | x :: a', y :: b' => (x =? y) && list_eqb a' b'
+  | _, _ => false
+  end.
+
+Section Guarded.
+  (* attr_to_api_typed on the value bytes: the typed message, or None for the
+     Unknown form PREFIX_SID falls back to when its decoder fails *)
+  Variable typed_of_bytes : N -> list N -> res (option (list N)).
+  (* attr_from_api_unchecked on a typed message: the value bytes, or None = Err *)
+  Variable bytes_of_typed : N -> list N -> res (option (list N)).
+
+  Definition from_api_nc (x : api_nc) : res (option attr) :=
+    match x with
+    | NcTyped c t =>
+        r <- bytes_of_typed c t ;;
+        len_check (match r with Some b => new_with_bin c b | None => None end)
+    | NcUnknown f c b => from_api (fun _ => None) (AUnknown f c b)
+    end.
+
+  Definition to_api_nc (a : attr) : res api_nc :=
+    b <- binary_unwrap a ;;
+    t <- typed_of_bytes (a_code a) b ;;
+    match t with
+    | None => Ok (NcUnknown (a_flags a) (a_code a) b)
+    | Some t' =>
+        r <- from_api_nc (NcTyped (a_code a) t') ;;
+        match r with
+        | Some a' =>
+            match a_data a' with
+            | DVal _ => Ok (NcUnknown (a_flags a) (a_code a) b)
+            | DBin b' | DOpaque b' =>
+                if list_eqb b' b then Ok (NcTyped (a_code a) t') else Ok (NcUnknown (a_flags a) (a_code a) b)
+            end
+        | None => Ok (NcUnknown (a_flags a) (a_code a) b)
+        end
+    end.
+End Guarded.
 
 (* ------------------------------------------------------------------ *)
 (* printers                                                            *)
@@ -1159,6 +1221,207 @@ Section Nlri.
         else b <- addr_bytes width a m ;; Ok ((lb + 64 + m) mod 256 :: label_bytes ls ++ rd_bytes d ++ b)
     end.
 End Nlri.
+
+(* ------------------------------------------------------------------ *)
+(* EVPN NLRI (packet/src/evpn.rs, evpn_nlri_to_api and the five Evpn* arms of
+   net_from_api)                                                          *)
+Inductive ipaddr : Type := IP4 (a : N) | IP6 (a : N).
+
+Inductive evpn : Type :=
+| EvAd (d : rd) (esi : list N) (etag label : N)
+| EvMac (d : rd) (esi : list N) (etag : N) (mac : list N) (ip : option ipaddr) (label1 : N) (label2 : option N)
+| EvImet (d : rd) (etag : N) (ip : ipaddr)
+| EvEs (d : rd) (esi : list N) (ip : ipaddr)
+| EvPfx (d : rd) (esi : list N) (etag : N) (pfx : ipaddr) (plen : N) (gw : ipaddr) (label : N).
+
+(* api::EthernetSegmentIdentifier { type, value } or absent *)
+Definition api_esi : Type := option (N * list N).
+
+Inductive api_evpn : Type :=
+| AEvAd (d : api_rd) (esi : api_esi) (etag label : N)
+| AEvMac (d : api_rd) (esi : api_esi) (etag : N) (mac ip : list N) (labels : list N)
+| AEvImet (d : api_rd) (etag : N) (ip : list N)
+| AEvEs (d : api_rd) (esi : api_esi) (ip : list N)
+| AEvPfx (d : api_rd) (esi : api_esi) (etag : N) (pfx : list N) (plen : N) (gw : list N) (label : N).
+
+(* format!("{:02x}") and u8::from_str_radix(_, 16): optional '+', at least one hex
+   digit, value within u8 *)
+Definition hex2 (b : N) : list N := [hexd (b / 16); hexd (b mod 16)].
+
+Fixpoint join_mac (l : list N) : list N :=
+  match l with
+  | [] => []
+  | [b] => hex2 b
+  | b :: r => hex2 b ++ COLON :: join_mac r
+  end.
+
+Fixpoint hex_u8 (l : list N) (acc : N) : option N :=
+  match l with
+  | [] => Some acc
+  | c :: r =>
+      match hexval c with
+      | Some d => if 255 <? acc * 16 + d then None else hex_u8 r (acc * 16 + d)
+      | None => None
+      end
+  end.
+
+Definition parse_hex_u8 (p : list N) : option N :=
+  let ds := match p with 43 :: r => r | _ => p end in
+  match ds with [] => None | _ => hex_u8 ds 0 end.
+
+Fixpoint parse_mac_parts (ps : list (list N)) : option (list N) :=
+  match ps with
+  | [] => Some []
+  | p :: r =>
+      match parse_hex_u8 p, parse_mac_parts r with
+      | Some b, Some bs => Some (b :: bs)
+      | _, _ => None
+      end
+  end.
+
+Definition parse_mac (s : list N) : option (list N) :=
+  let ps := split_on COLON s in
+  if Nat.eqb (length ps) 6 then parse_mac_parts ps else None.
+
+Section Evpn.
+  Variable v6p : N -> list N.
+  Variable v6r : list N -> option N.
+
+  Definition ip_to_string (i : ipaddr) : list N :=
+    match i with IP4 a => ip4_to_string a | IP6 a => v6p a end.
+
+  (* str::parse::<IpAddr>: an IPv4 address, else an IPv6 address *)
+  Definition ip_of_string (s : list N) : option ipaddr :=
+    match ip4_of_string s with
+    | Some a => Some (IP4 a)
+    | None => match v6r s with Some a => Some (IP6 a) | None => None end
+    end.
+
+  Definition esi_to_api (e : list N) : api_esi :=
+    match e with t :: v => Some (t, v) | [] => Some (0, []) end.
+
+  (* after the fix commit: the type must fit the one octet it is stored in *)
+  Definition esi_from_api (e : api_esi) : option (list N) :=
+    match e with
+    | None => None
+    | Some (t, v) => if Nat.eqb (length v) 9 && (t <? 256) then Some (t :: v) else None
+    end.
+
+  Definition evpn_to_api (e : evpn) : api_evpn :=
+    match e with
+    | EvAd d esi etag label => AEvAd (rd_to_api d) (esi_to_api esi) etag label
+    | EvMac d esi etag mac ip l1 l2 =>
+        AEvMac (rd_to_api d) (esi_to_api esi) etag (join_mac mac)
+               (match ip with Some i => ip_to_string i | None => [] end)
+               (l1 :: match l2 with Some l => [l] | None => [] end)
+    | EvImet d etag ip => AEvImet (rd_to_api d) etag (ip_to_string ip)
+    | EvEs d esi ip => AEvEs (rd_to_api d) (esi_to_api esi) (ip_to_string ip)
+    | EvPfx d esi etag pfx plen gw label =>
+        AEvPfx (rd_to_api d) (esi_to_api esi) etag (ip_to_string pfx) plen (ip_to_string gw) label
+    end.
+
+  Definition label_ok (l : N) : bool := l <? 16777216.
+  Definition same_family (a b : ipaddr) : bool :=
+    match a, b with IP4 _, IP4 _ | IP6 _, IP6 _ => true | _, _ => false end.
+  Definition ip_width (a : ipaddr) : N := match a with IP4 _ => 32 | IP6 _ => 128 end.
+
+  (* the Evpn* arms of net_from_api after the fix commit: labels are 24-bit values,
+     at most two of them, the prefix length is within the prefix's address width and
+     the gateway is of the prefix's family *)
+  Definition evpn_from_api (x : api_evpn) : option evpn :=
+    match x with
+    | AEvAd d esi etag label =>
+        match rd_from_api d, esi_from_api esi with
+        | Some d', Some e => if label_ok label then Some (EvAd d' e etag label) else None
+        | _, _ => None
+        end
+    | AEvMac d esi etag mac ip labels =>
+        match rd_from_api d, esi_from_api esi, parse_mac mac with
+        | Some d', Some e, Some m =>
+            let ipo := match ip with [] => Some None
+                       | _ => match ip_of_string ip with Some i => Some (Some i) | None => None end end in
+            match ipo, labels with
+            | Some i, [l1] => if label_ok l1 then Some (EvMac d' e etag m i l1 None) else None
+            | Some i, [l1; l2] => if label_ok l1 && label_ok l2 then Some (EvMac d' e etag m i l1 (Some l2)) else None
+            | _, _ => None
+            end
+        | _, _, _ => None
+        end
+    | AEvImet d etag ip =>
+        match rd_from_api d, ip_of_string ip with
+        | Some d', Some i => Some (EvImet d' etag i)
+        | _, _ => None
+        end
+    | AEvEs d esi ip =>
+        match rd_from_api d, esi_from_api esi, ip_of_string ip with
+        | Some d', Some e, Some i => Some (EvEs d' e i)
+        | _, _, _ => None
+        end
+    | AEvPfx d esi etag pfx plen gw label =>
+        match rd_from_api d, esi_from_api esi, ip_of_string pfx with
+        | Some d', Some e, Some p =>
+            if ip_width p <? plen then None
+            else
+              let gwo := match gw with
+                         | [] => Some (match p with IP4 _ => IP4 0 | IP6 _ => IP6 0 end)
+                         | _ => ip_of_string gw
+                         end in
+              match gwo with
+              | Some g => if same_family p g && label_ok label then Some (EvPfx d' e etag p plen g label) else None
+              | None => None
+              end
+        | _, _, _ => None
+        end
+    end.
+End Evpn.
+
+Definition v_ip (i : ipaddr) : val :=
+  match i with IP4 a => VL [VI 4; VN a] | IP6 a => VL [VI 6; VNs (to_bytes 16 a)] end.
+
+Definition v_evpn (e : evpn) : val :=
+  match e with
+  | EvAd d esi etag label => VL [VI 1; VNs (rd_bytes d); VNs esi; VN etag; VN label]
+  | EvMac d esi etag mac ip l1 l2 =>
+      VL [VI 2; VNs (rd_bytes d); VNs esi; VN etag; VNs mac; VOpt v_ip ip; VN l1; VOpt VN l2]
+  | EvImet d etag ip => VL [VI 3; VNs (rd_bytes d); VN etag; v_ip ip]
+  | EvEs d esi ip => VL [VI 4; VNs (rd_bytes d); VNs esi; v_ip ip]
+  | EvPfx d esi etag pfx plen gw label =>
+      VL [VI 5; VNs (rd_bytes d); VNs esi; VN etag; v_ip pfx; VN plen; v_ip gw; VN label]
+  end.
+
+Definition v_api_rd0 (d : api_rd) : val :=
+  match d with
+  | ARdMissing => VL [VI 0]
+  | ARd2 a b => VL [VI 1; VN a; VN b]
+  | ARdIp s b => VL [VI 2; VNs s; VN b]
+  | ARd4 a b => VL [VI 3; VN a; VN b]
+  end.
+
+Definition v_api_esi (e : api_esi) : val :=
+  match e with None => VL [] | Some (t, v) => VL [VN t; VNs v] end.
+
+Definition v_api_evpn (x : api_evpn) : val :=
+  match x with
+  | AEvAd d esi etag label => VL [VI 1; v_api_rd0 d; v_api_esi esi; VN etag; VN label]
+  | AEvMac d esi etag mac ip labels => VL [VI 2; v_api_rd0 d; v_api_esi esi; VN etag; VNs mac; VNs ip; VNs labels]
+  | AEvImet d etag ip => VL [VI 3; v_api_rd0 d; VN etag; VNs ip]
+  | AEvEs d esi ip => VL [VI 4; v_api_rd0 d; v_api_esi esi; VNs ip]
+  | AEvPfx d esi etag pfx plen gw label =>
+      VL [VI 5; v_api_rd0 d; v_api_esi esi; VN etag; VNs pfx; VN plen; VNs gw; VN label]
+  end.
+
+(* kind 6: an API EVPN message (the last element: the accepted route survives its own
+   wire encoding, which the harness checks by decoding Nlri::encode's bytes);
+   kind 7: an internal EVPN route *)
+Definition run_api_evpn_case (x : api_evpn) : val :=
+  match evpn_from_api v6_parse x with
+  | None => VL [VI 0]
+  | Some e => VL [VI 1; v_evpn e; VI 1]
+  end.
+
+Definition run_evpn_case (e : evpn) : val :=
+  let x := evpn_to_api v6_print e in
+  VL [v_api_evpn x; match evpn_from_api v6_parse x with Some e' => VL [VI 1; v_evpn e'] | None => VL [VI 0] end].
 
 Definition v_nlri (n : nlri) : val :=
   match n with
